@@ -281,6 +281,10 @@ SRCTIE = {
       "ReaderCursor.prev_block_from_index", "ReaderCursor.move_on_first", "ReaderCursor.move_on_last", "ReaderCursor.move_on_next", "ReaderCursor.move_on_prev",
       "ReaderCursor.move_on_key_greater_than_or_equal_to", "ReaderCursor.move_on_key_lower_than_or_equal_to", "ReaderCursor.move_on_key_equal_to"]),
     "Grenad.SrcTie.Compression": ("SrcCompression", ["CompressionType", "compress", "decompress"]),
+    "Grenad.SrcTie.MergerIter": ("SrcMerger,SrcMergerIter", ["Entry", "Entry.cmp", "MergerIter", "MergerIter.next", "Merger", "Merger.into_stream_merger_iter"]),
+    "Grenad.SrcTie.MergerIterNext": ("SrcMerger,SrcMergerIter", ["Entry", "Entry.cmp", "MergerIter", "MergerIter.next", "Merger", "Merger.into_stream_merger_iter"]),
+    "Grenad.SrcTie.MergerIterStep": ("SrcMerger,SrcMergerIter", ["Entry", "Entry.cmp", "MergerIter", "MergerIter.next", "Merger", "Merger.into_stream_merger_iter"]),
+    "Grenad.SrcTie.MergerIterRun": ("SrcMerger,SrcMergerIter", ["Entry", "Entry.cmp", "MergerIter", "MergerIter.next", "Merger", "Merger.into_stream_merger_iter"]),
     "Grenad.SrcTie.Sorter": ("SrcSorter", ["EntryBound", "EntryBoundAlignedBuffer", "EntryBoundAlignedBuffer.deref", "Entries", "Entries.clear",
                                            "Entries.remaining", "Entries.entry_size", "Entries.fits", "Entries.memory_usage",
                                            "Entries.estimated_entries_memory_usage", "Sorter", "Sorter.threshold_exceeded"]),
@@ -291,7 +295,7 @@ for _p, _mods in {"C14": ["Varint", "Block", "C14Src"], "C13": ["Meta", "C13Src"
                   "C01": ["BlockWriter", "Varint", "Meta", "Block", "BlockCursor", "TBlockSrc", "BuiltSrc", "NoPanic", "EndToEnd", "BlockLoad", "WriterBlock", "WriterLemmas", "WriterCut", "WriterInsert", "WriterFinish", "WriterRun", "WriterBounds", "WriterBuild", "Compression", "ReaderCursorTie", "ReaderCursorTieStep"],
                   "C02": ["BlockCursor", "Smoke", "TBlockSrc", "NoPanic", "IndexCursorLoad", "IndexCursorIter", "IndexCursor", "ReaderCursorTie", "ReaderCursorTieStep"],
                   "C03": ["IndexCursorLoad", "IndexCursorInit", "IndexCursorIter", "IndexCursorRec", "IndexCursor", "IndexCursorSmoke", "ReaderCursorTie", "ReaderCursorTieStep"],
-                  "C16": ["IndexCursorLoad", "IndexCursorInit", "IndexCursorIter", "IndexCursorRec", "IndexCursor", "ReaderCursorTie", "ReaderCursorTieStep"], "C06": ["Merger"], "C11": ["CountWrite"], "C08": ["Sorter"], "C07": ["Sorter"]}.items():
+                  "C16": ["IndexCursorLoad", "IndexCursorInit", "IndexCursorIter", "IndexCursorRec", "IndexCursor", "ReaderCursorTie", "ReaderCursorTieStep"], "C06": ["Merger", "MergerIter", "MergerIterNext", "MergerIterStep", "MergerIterRun"], "C11": ["CountWrite"], "C08": ["Sorter"], "C07": ["Sorter"]}.items():
     PROPS[_p]["srctie"] = ["Grenad.SrcTie." + m for m in _mods]
 
 
